@@ -2194,6 +2194,18 @@ func sliceMentionsField(v ssa.Value, name string) bool {
 			if core.CanonFieldOf(x.X.Type(), x.Field) == name {
 				return true
 			}
+		case *ssa.Call:
+			// a value built by a package constructor from the whole field (newOwner(field)): what the constructor reads
+			// of the field counts
+			if name == "Index" && curCtx != nil {
+				if h := x.Call.StaticCallee(); h != nil && curCtx.P.InPkg(h) {
+					for k, a := range x.Call.Args {
+						if k < len(h.Params) && isNamed(a.Type(), "reflect", "StructField") && curCtx.readsIndexOf(h.Params[k], 3) {
+							return true
+						}
+					}
+				}
+			}
 		}
 	}
 	return false
